@@ -1516,6 +1516,14 @@ func (p *Posix) CompleteMultipartUpload(ctx context.Context, input *s3.CompleteM
 		return nil, s3err.GetIncorrectMpObjectSizeErr(totalsize, *input.MpuObjectSize)
 	}
 
+	// Completing onto an existing key replaces that object: it must not be
+	// under legal hold or retention (the same check the controller makes
+	// before PutObject and CopyObject).
+	err = auth.CheckObjectAccess(ctx, bucket, acct.Access, []types.ObjectIdentifier{{Key: &object}}, true, p)
+	if err != nil {
+		return nil, err
+	}
+
 	var hashRdr *utils.HashReader
 	var compositeChecksumRdr *utils.CompositeChecksumReader
 	switch checksums.Type {
